@@ -502,11 +502,12 @@ def known(c, backend, r):
 LEVEL_TEXT = ("Machine-checked Coq theorems, for all integers: helpers.add_duration's sign-aware carry normalisation (translated from /repo on every run) "
               "preserves the total and bounds every unit; Time.add/subtract equal (time of day + total) mod 24 h exactly whenever 1970-01-01 + time + total "
               "lies in 0001..9999 and raise OverflowError otherwise; subtract undoes add; a timedelta whose normal form has days != 0 (incl. every negative "
-              "sub-day delta) is rejected with TypeError, days = 0 shifts modulo 24 h; the current diff/closest/farthest code is characterised exactly "
-              "(refuted as stated, proved on the region of equal microsecond fields). Three-way correspondence (implementation in both backends / extracted "
+              "sub-day delta) is rejected with TypeError, days = 0 shifts modulo 24 h; diff / t2 - t1 is the signed microsecond difference of the times of day "
+              "(magnitude with abs), closest/farthest choose by that distance (both proved in full after the two fix: commits in /repo). Three-way correspondence (implementation in both backends / extracted "
               "model / integer+stdlib oracle) on a boundary-heavy seeded stream.")
 DESIGN_REF = "DESIGN.md section 4 C20"
 LEVEL_NOTE = ("Trusted: Coq kernel+VM, the Python->Gallina translator and the statement selection in g70_time.py, the hand-written glue of Model/TimeOfDay.v "
               "(UTC datetime + timedelta as integer wall-clock arithmetic with the 0001..9999 range check; timedelta normal form), extraction+driver (cross-checked "
-              "with vm_compute). Two genuine defects are listed as known findings: Time.diff drops the microsecond fields; closest/farthest compare whole seconds.")
+              "with vm_compute). Two genuine defects were repaired by fix: commits (Time.diff dropped the microsecond fields; closest/farthest compared whole seconds); "
+              "they are listed as fixed and are reported again as violations if they return.")
 TECHNIQUE = "Coq proof (lia with Euclidean division) over translated code + differential correspondence for the hand-written glue"
